@@ -524,12 +524,12 @@ class Interp:
                 raise SimRaise(TypeError)
         if z3.is_fp(x):
             neg = z3.And(z3.fpLT(x, z3.FPVal(0.0, F64)), z3.Not(z3.fpIsNaN(x)))
-            st.events.append(('sqrt', x))
+            st.events.append(('sqrt', x, list(st.pc)))
             if st.branch(neg):
                 raise SimRaise(ValueError)
             return z3.fpSqrt(RNE, x)
         xr = z3.ToReal(x) if z3.is_int(x) else x
-        st.events.append(('sqrt', xr))
+        st.events.append(('sqrt', xr, list(st.pc)))
         if st.branch(xr < 0):
             raise SimRaise(ValueError)
         st.fresh += 1
